@@ -328,7 +328,7 @@ func c05FieldMapWrites(fn *ssa.Function, typeName, field string) []c05MapWrite {
 				}
 			case ssa.CallInstruction:
 				c := CallSite{fn, x}
-				if c.IsStatic("tailscale.com/util/mak", "", "Set") && len(c.Common().Args) == 3 {
+				if c05IsGenericFunc(c.Callee(), "tailscale.com/util/mak", "Set") && len(c.Common().Args) == 3 {
 					if base, ok := c05FieldOf(c.Common().Args[0], typeName, field); ok {
 						out = append(out, c05MapWrite{x, base, c.Common().Args[1], c.Common().Args[2]})
 					}
@@ -337,6 +337,18 @@ func c05FieldMapWrites(fn *ssa.Function, typeName, field string) []c05MapWrite {
 		}
 	}
 	return out
+}
+
+// c05IsGenericFunc matches an instantiation of the generic package function
+// pkgPath.name (funcIs compares the instance's bracketed name).
+func c05IsGenericFunc(f *ssa.Function, pkgPath, name string) bool {
+	if f == nil {
+		return false
+	}
+	if o := f.Origin(); o != nil {
+		f = o
+	}
+	return f.Name() == name && f.Pkg != nil && f.Pkg.Pkg.Path() == pkgPath && f.Signature.Recv() == nil
 }
 
 // c05FieldMapBuiltin lists calls of builtin name (delete, clear, len) in fn whose
@@ -663,7 +675,7 @@ func c05RulePending(p *Program, r *Reporter) {
 	pmmCalls := c05CallsTo(rb, pmmFn)
 	if len(pmmCalls) != 1 || pmmCalls[0].Value() == nil {
 		r.Undecided(rule, key+"#populate", p.Pos(rb.Pos()), fmt.Sprintf("expected exactly one plain call of populateMutationMap in ReceiveBlob, found %d: the success returns cannot be classified", len(pmmCalls)))
-		r.Floor(rule, 14)
+		r.Floor(rule, 11)
 		return
 	}
 	pmm := pmmCalls[0].Value()
@@ -842,7 +854,7 @@ func c05RulePending(p *Program, r *Reporter) {
 
 	// (4) noteNeededLocked persists before it reports success; map roles
 	c05NoteNeeded(p, r, rule, nnl, nnm)
-	r.Floor(rule, 13)
+	r.Floor(rule, 11)
 }
 
 func c05RetPos(ret *ssa.Return) token.Pos {
@@ -1718,7 +1730,39 @@ func c05RuleOpen(p *Program, r *Reporter) {
 				fmt.Sprintf("noteNeededLocked writes have/missing as key parts %d/%d but initNeededMapsLocked reads them back as parts %d/%d: after a restart needs and neededBy are inverted, so an arriving dependency never releases the blob that waits for it", writerHave, writerMissing, readerHave, readerMissing))
 		}
 	}
-	r.Floor(rule, 5)
+	// removeAllMissingEdges(br) removes the rows in which br is the *waiting* blob
+	rme := p.Func(c05Pkg, "Index", "removeAllMissingEdges")
+	rkey := FuncKey(rme) + "#prefix-role"
+	okRole, okDelete := false, false
+	for _, c := range CallsIn(rme, false) {
+		if c.MethodName() == "queryPrefix" && c.Callee() != nil && c.Callee().Pkg != nil && c.Callee().Pkg.Pkg.Path() == c05PkgPath {
+			a := c.Args()
+			for i := range a {
+				if c05GlobalLoad(a[i], c05PkgPath, "keyMissing") && i+1 < len(a) {
+					if el := c05VarargElems(a[i+1]); len(el) == 1 && c05ParamIs(el[0], rme, 1) {
+						okRole = true
+					}
+				}
+			}
+		}
+		if v := c.Value(); v != nil && v.Call.IsInvoke() && v.Call.Method.Name() == "Delete" {
+			if _, ok := c05LoadOfField(v.Call.Value, "Index", "s"); ok {
+				okDelete = true
+			}
+		}
+	}
+	writerHaveFirst := false
+	for _, c := range CallsIn(nnl, false) {
+		if c.IsStatic(c05PkgPath, "keyType", "Key") && c05GlobalLoad(c.Args()[0], c05PkgPath, "keyMissing") {
+			if el := c05VarargElems(c.Args()[1]); len(el) >= 1 && c05ParamIs(el[0], nnl, 1) {
+				writerHaveFirst = true
+			}
+		}
+	}
+	r.Check(okRole && okDelete && writerHaveFirst, rule, rkey, p.Pos(rme.Pos()),
+		"deletes the rows under keyMissing.Prefix(br); the writer puts the waiting blob ('have') first, so these are exactly br's own needs",
+		"removeAllMissingEdges(br) no longer deletes the keyMissing rows whose first key part is br while noteNeededLocked writes the waiting blob first: the needs of a now-indexed blob survive (and are reloaded at restart) or another blob's needs are deleted")
+	r.Floor(rule, 6)
 }
 
 // ---------------------------------------------------------------------------
